@@ -417,7 +417,7 @@ Definition success_reply_of (a : str) (s : option str) (r : msg) : Prop :=
 Definition reply_ok (E : env) (i : nat) (line : bytes) (r : msg) : Prop :=
   match next_message E line with
   | None =>
-      let f := splitsp error_split_max (bstrip line) in error_reply_of E i (nth 0%nat f []) (nth_error f 1%nat) r
+      let f := splitsp error_split_max (utf8_dec_repl (bstrip line)) in error_reply_of E i (nth 0%nat f []) (nth_error f 1%nat) r
   | Some (a, s, d) =>
       if str_eqb a HELPREQUEST then r = (HELPREPLY, None, None)
       else error_reply_of E i a s r \/ success_reply_of a s r
